@@ -109,7 +109,10 @@ def handle (args : List String) (impl : String) : Verdict :=
         let hasMirror := creations.any (fun x => creations.any (fun y => x.1 == y.1 && x.2.1 != y.2.1))
         let hasBare := creations.any (fun x => x.2.2 == 1)
         { model := m, spec := some ok,
-          note := if ok then "" else if hasMirror then "class=mirror-change-cancels-in-hash" else if hasBare then "class=bare-node-invisible-to-hash"
+          -- an open finding is recognised only when the MODEL (which has the hash design built in) shows the very same
+          -- non-convergence; any other divergence of the implementation is a violation in its own right
+          note := if ok then "" else if m == impl && hasMirror then "class=mirror-change-cancels-in-hash"
+            else if m == impl && hasBare then "class=bare-node-invisible-to-hash"
             else if !same then "class=instances-differ-after-sync" else "class=newest-write-lost" }
       | _ => { model := m }
     | none => bad "C02 tokens"
